@@ -162,7 +162,7 @@ def cancel_and_shutdown(ctx):
     ctx.ob(f, 'queue SHUTDOWN_SIGNAL then join the submitter', bool(put and join) and g.all_dominate(put, join, g.NORMAL) and g.must_pass([g.entry], join, [g.exit], g.NORMAL),
            'shutdown must wait until every queued download request was submitted')
     f = ctx.func('processpool.ProcessPoolDownloader._shutdown_get_object_workers')
-    loops = sorted([n for n in own_nodes(f.node) if isinstance(n, ast.For) and norm(n.iter) == 'self._workers'], key=lambda n: n.lineno)
+    loops = sorted([n for n in own_nodes(f.node) if isinstance(n, ast.For) and norm(n.iter) == 'self._workers'], key=lambda n: n._pos)
     puts = [c for c in own_calls(f.node) if (dotted(c.func) or '').endswith('_worker_queue.put') and norm(c.args[0]) == 'SHUTDOWN_SIGNAL']
     joins = [c for c in own_calls(f.node) if isinstance(c.func, ast.Attribute) and c.func.attr == 'join']
     ok = len(loops) == 2 and len(puts) == 1 and q.in_loop(puts[0]) is loops[0] and len(joins) == 1 and q.in_loop(joins[0]) is loops[1]
